@@ -1,4 +1,67 @@
-// harnesses for this file are added below
+// Kani harnesses for lightning-invoice: numeric fields (amount, expiry, timestamp, CLTV) round trip
 use super::*;
 include!("/verif/hooks/common.rs");
-pub fn replay(_name: &str, _a: &[u128]) -> Option<Outcome> { None }
+use crate::ser::verif_contracts::{encode_u64, size_u64};
+
+// (P C18) parse_u64_be(encode_int_be_base32(x)) == Some(x), with exactly the predicted number of digits and no leading zero digit
+pub fn contract_int_roundtrip(x: u64) -> Outcome {
+	let (digits, n) = encode_u64(x);
+	if n != size_u64(x) || n > 13 {
+		return Outcome::Violated;
+	}
+	if n > 0 && Into::<u8>::into(digits[0]) == 0 {
+		return Outcome::Violated;
+	}
+	match parse_u64_be(&digits[..n]) {
+		Some(y) => {
+			if y == x {
+				Outcome::Holds
+			} else {
+				Outcome::Violated
+			}
+		},
+		None => Outcome::Violated,
+	}
+}
+// (P C18) u16 fields (tagged-field lengths): three digits always parse; the value is the big-endian base-32 number
+pub fn contract_u16_parse(a: u8, b: u8, c: u8) -> Outcome {
+	if a >= 32 || b >= 32 || c >= 32 {
+		return Outcome::Vacuous;
+	}
+	let ds = [Fe32::try_from(a).unwrap(), Fe32::try_from(b).unwrap(), Fe32::try_from(c).unwrap()];
+	match parse_u16_be(&ds[..]) {
+		Some(v) => {
+			if v as u32 == (a as u32) * 1024 + (b as u32) * 32 + c as u32 {
+				Outcome::Holds
+			} else {
+				Outcome::Violated
+			}
+		},
+		None => Outcome::Violated,
+	}
+}
+pub fn replay(name: &str, a: &[u128]) -> Option<Outcome> {
+	Some(match name {
+		"int_roundtrip" => contract_int_roundtrip(a[0] as u64),
+		"u16_parse" => contract_u16_parse(a[0] as u8, a[1] as u8, a[2] as u8),
+		_ => return None,
+	})
+}
+#[cfg(kani)]
+mod harnesses {
+	use super::*;
+	#[kani::proof]
+	#[kani::unwind(15)]
+	fn h_int_roundtrip() {
+		let o = contract_int_roundtrip(kani::any());
+		kani::cover!(o == Outcome::Holds);
+		assert!(o != Outcome::Violated);
+	}
+	#[kani::proof]
+	#[kani::unwind(5)]
+	fn h_u16_parse() {
+		let o = contract_u16_parse(kani::any(), kani::any(), kani::any());
+		kani::cover!(o == Outcome::Holds);
+		assert!(o != Outcome::Violated);
+	}
+}
